@@ -23,6 +23,7 @@ pub fn dispatch(op: &str, a: &[Term]) -> Option<Term> {
         "kronecker" => ti(number_theory_elementary::kronecker_symbol_i64(a[0].i64(), a[1].i64())),
         "primes" => tl(number_theory_elementary::primes(a[0].usize()).into_iter().map(ti).collect()),
         "primes_iter" => tl(number_theory_elementary::Primes::new().take(a[0].usize()).map(ti).collect()),
+        "primes_iter_default" => tl(number_theory_elementary::Primes::default().take(a[0].usize()).map(ti).collect()),
         // is_prime n seed script-bytes -> [verdict consumed-bytes]
         "is_prime" => {
             verif_hooks::install(a[1].u64(), a[2].bytes());
